@@ -590,13 +590,14 @@ ly_path_compile_snode(const struct ly_ctx *ctx, const struct lysc_node *cur_node
             break;
         case LY_VALUE_JSON:
         case LY_VALUE_LYB:
+        case LY_VALUE_CANON:
+            /* the canonical form of a path is its JSON form */
             if (!prev_ctx_node) {
                 LOGINT_RET(ctx);
             }
             /* inherit module of the previous node */
             mod = prev_ctx_node->module;
             break;
-        case LY_VALUE_CANON:
         case LY_VALUE_XML:
         case LY_VALUE_STR_NS:
             /* not really defined or accepted */
